@@ -329,7 +329,7 @@ func (g *Gen) constArray(idxSort, elemSort, elem string) string {
 	if !strings.Contains(elem, "st.empty") {
 		return fmt.Sprintf("((as const (Array %s %s)) %s)", idxSort, elemSort, elem)
 	}
-	name := fmt.Sprintf("|zarr:%s:%s:%x|", idxSort, elemSort, hashStr(elem))
+	name := fmt.Sprintf("|zarr:%s:%s:%x|", strings.ReplaceAll(idxSort, "|", ""), strings.ReplaceAll(elemSort, "|", ""), hashStr(elem))
 	if !g.declared[name] {
 		g.declared[name] = true
 		g.decls = append(g.decls, fmt.Sprintf("(declare-const %s (Array %s %s))", name, idxSort, elemSort),
